@@ -9,6 +9,7 @@ import math
 
 from .. import gen
 from .. import refmodel as M
+from .. import salt as SALT
 
 ID = "C07"
 LEVEL = "exploration"
@@ -87,7 +88,11 @@ def judge(case, rep, S):
         pat = M.pattern(seq)
     obj = S["SP"](seq)
     if case.get("pre"):
-        disturb(obj, seq, gen.sub_rng(case.get("o", 0), "pre"))
+        r_ = gen.sub_rng(case.get("o", 0), "pre")
+        if case["pre"] == 1:
+            disturb(obj, seq, r_)
+        else:
+            SALT.salt(S, obj, seq, r_, rep, cheap=len(seq) > 150)
         rep.cnt("after_other_queries")
     got = obj.get_SCD()
     want = M.scd_ref(pat)
